@@ -53,13 +53,17 @@ Proof.
     + reflexivity.
 Qed.
 
-Lemma h_values_set k k' v h :
-  h_values k (h_set k' v h) = if String.eqb k' k then [v] else h_values k h.
+Lemma h_values_set_all k k' vs h :
+  h_values k (h_set_all k' vs h) = if String.eqb k' k then vs else h_values k h.
 Proof.
-  unfold h_set. rewrite h_values_app, h_has_del, h_values_del. simpl.
+  unfold h_set_all. rewrite h_values_app, h_has_del, h_values_del. simpl.
   rewrite (str_eqb_sym k k'). destruct (String.eqb k' k); simpl; [reflexivity|].
   destruct (h_has k h) eqn:E; [reflexivity|]. symmetry. apply h_has_false_values. exact E.
 Qed.
+
+Lemma h_values_set k k' v h :
+  h_values k (h_set k' v h) = if String.eqb k' k then [v] else h_values k h.
+Proof. apply h_values_set_all. Qed.
 
 Lemma h_values_add k k' v h :
   h_values k (h_add k' v h) = if String.eqb k' k then (h_values k h ++ [v])%list else h_values k h.
@@ -122,14 +126,17 @@ Proof.
     apply in_map_iff. exists (k, vs). auto.
 Qed.
 
-Lemma nodup_set k v h : NoDup (keys h) -> NoDup (keys (h_set k v h)).
+Lemma nodup_set_all k vs h : NoDup (keys h) -> NoDup (keys (h_set_all k vs h)).
 Proof.
-  intro H. unfold h_set, keys. rewrite map_app. simpl.
+  intro H. unfold h_set_all, keys. rewrite map_app. simpl.
   apply NoDup_snoc.
   - apply (nodup_del k h H).
   - intro Hx. fold (keys (h_del k h)) in Hx.
     apply in_keys_has in Hx. rewrite h_has_del, str_eqb_refl in Hx. discriminate.
 Qed.
+
+Lemma nodup_set k v h : NoDup (keys h) -> NoDup (keys (h_set k v h)).
+Proof. apply nodup_set_all. Qed.
 
 Lemma keys_add k v h : keys (h_add k v h) = if h_has k h then keys h else (keys h ++ [k])%list.
 Proof.
@@ -160,13 +167,6 @@ Lemma nodup_parse_headers lines : NoDup (keys (parse_headers lines)).
 Proof. apply nodup_fold_add. constructor. Qed.
 
 (** * field lines to map *)
-
-(** the values of all field lines whose name spells [k], in order *)
-Fixpoint line_values (k : string) (lines : list (string * string)) : list string :=
-  match lines with
-  | [] => []
-  | (n, v) :: r => if String.eqb (canon_key n) k then v :: line_values k r else line_values k r
-  end.
 
 Lemma h_values_fold_add k (lines : list (string * string)) h :
   h_values k (fold_left (fun h l => h_add (canon_key (fst l)) (snd l) h) lines h) =
@@ -208,13 +208,13 @@ Local Open Scope string_scope.
 Lemma h_has_cons k k' vs h : h_has k ((k', vs) :: h) = String.eqb k k' || h_has k h.
 Proof. reflexivity. Qed.
 
-Lemma h_values_set_pipeline k uh : forall h, NoDup (keys uh) ->
-  h_values k (set_pipeline_headers uh h) =
-  if h_has k uh then [first_or_empty (h_values k uh)] else h_values k h.
+Lemma h_values_set_pipeline all k uh : forall h, NoDup (keys uh) ->
+  h_values k (set_pipeline_headers all uh h) =
+  if h_has k uh then (if all then h_values k uh else [first_or_empty (h_values k uh)]) else h_values k h.
 Proof.
   unfold set_pipeline_headers. induction uh as [|[ke ve] r IH]; intros h H; [reflexivity|].
   simpl fold_left. inversion H as [|x l Hnin Hnd]; subst. rewrite IH by assumption.
-  rewrite h_has_cons, h_values_cons, h_values_set. simpl fst. simpl snd.
+  rewrite h_has_cons, h_values_cons, h_values_set_all. simpl fst. simpl snd.
   destruct (String.eqb k ke) eqn:E.
   - apply String.eqb_eq in E. subst ke. rewrite str_eqb_refl. simpl.
     destruct (h_has k r) eqn:Eh; [|reflexivity].
@@ -222,10 +222,10 @@ Proof.
   - rewrite (str_eqb_sym ke k), E. reflexivity.
 Qed.
 
-Lemma nodup_set_pipeline uh : forall h, NoDup (keys h) -> NoDup (keys (set_pipeline_headers uh h)).
+Lemma nodup_set_pipeline all uh : forall h, NoDup (keys h) -> NoDup (keys (set_pipeline_headers all uh h)).
 Proof.
   unfold set_pipeline_headers. induction uh as [|e r IH]; intros h H; [exact H|].
-  simpl. apply IH. apply nodup_set. exact H.
+  simpl. apply IH. apply nodup_set_all. exact H.
 Qed.
 
 Lemma h_has_add k k' v h : h_has k (h_add k' v h) = h_has k h || String.eqb k' k.
@@ -311,15 +311,25 @@ Proof.
             negb (is_empty (h_get "X-Forwarded-Host" hin))); repeat apply nodup_set; exact H.
 Qed.
 
-Lemma nodup_rewrite_request q pl th : NoDup (keys (snd (rewrite_request q pl th))).
+Lemma nodup_rewrite_request fx q pl th : NoDup (keys (snd (rewrite_request fx q pl th))).
 Proof.
-  unfold rewrite_request. cbv zeta. cbn [snd]. apply nodup_forwarded_block. apply nodup_add_cookies.
-  assert (H : NoDup (keys (set_pipeline_headers (upstream_headers pl)
-             (h_del_all ["X-Forwarded-Method"; "X-Forwarded-Uri"; "X-Forwarded-Path"]
-                (strip_forwarding (remove_hop_by_hop (in_headers q))))))).
-  { apply nodup_set_pipeline. apply nodup_del_all. unfold strip_forwarding. apply nodup_del_all.
+  unfold rewrite_request. cbv zeta. cbn [snd].
+  set (h1 := h_del_all ["X-Forwarded-Method"; "X-Forwarded-Uri"; "X-Forwarded-Path"]
+               (strip_forwarding (remove_hop_by_hop (in_headers q)))).
+  assert (H1 : NoDup (keys h1)).
+  { unfold h1. apply nodup_del_all. unfold strip_forwarding. apply nodup_del_all.
     apply nodup_remove_hop. apply nodup_in_headers. }
-  destruct (is_empty (h_get "Host" (upstream_headers pl))); [exact H | apply nodup_del; exact H].
+  set (h1' := if fx_f4 fx then forwarded_block (in_headers q) (q_host q) (q_peer q) h1 else h1).
+  assert (H1' : NoDup (keys h1')).
+  { unfold h1'. destruct (fx_f4 fx); [apply nodup_forwarded_block|]; exact H1. }
+  set (h2 := set_pipeline_headers (fx_c13f3 fx) (upstream_headers pl) h1').
+  assert (H2 : NoDup (keys h2)) by (apply nodup_set_pipeline; exact H1').
+  set (h3 := if is_empty (h_get "Host" (upstream_headers pl)) then h2 else h_del "Host" h2).
+  assert (H3 : NoDup (keys h3)).
+  { unfold h3. destruct (is_empty (h_get "Host" (upstream_headers pl))); [exact H2 | apply nodup_del; exact H2]. }
+  destruct (fx_f4 fx).
+  - apply nodup_add_cookies. exact H3.
+  - apply nodup_forwarded_block. apply nodup_add_cookies. exact H3.
 Qed.
 
 Lemma nodup_on_the_wire m h : NoDup (keys h) -> NoDup (keys (on_the_wire m h)).
